@@ -1,0 +1,42 @@
+//go:build verif
+
+package header
+
+// Contract file: comments only, parsed by /verif/cmd/govc (see /verif/DESIGN.md §2.2).
+// It contains no executable code; without the build tag it is not even compiled.
+
+//@ spec isSpaceOctet(c) := octetTypes[c] & isSpace != 0
+//@ spec isTokenOctet(c) := octetTypes[c] & isToken != 0
+
+//@ func skipSpace
+//@ ensures len(rest) <= len(s) && rest == s[len(s)-len(rest):]
+//@ ensures forall k int :: 0 <= k && k < len(s)-len(rest) ==> isSpaceOctet(s[k])
+//@ ensures len(rest) == 0 || !isSpaceOctet(rest[0])
+//@ assigns \nothing
+//@ loop 0 invariant 0 <= i && i <= len(s)
+//@ loop 0 invariant forall k int :: 0 <= k && k < i ==> isSpaceOctet(s[k])
+
+//@ func expectToken
+//@ ensures len(token) + len(rest) == len(s) && token == s[:len(token)] && rest == s[len(token):]
+//@ ensures forall k int :: 0 <= k && k < len(token) ==> isTokenOctet(s[k])
+//@ ensures len(rest) == 0 || !isTokenOctet(rest[0])
+//@ assigns \nothing
+//@ loop 0 invariant 0 <= i && i <= len(s)
+//@ loop 0 invariant forall k int :: 0 <= k && k < i ==> isTokenOctet(s[k])
+
+//@ func expectTokenSlash
+//@ ensures len(token) + len(rest) == len(s) && token == s[:len(token)] && rest == s[len(token):]
+//@ ensures forall k int :: 0 <= k && k < len(token) ==> (isTokenOctet(s[k]) || s[k] == '/')
+//@ ensures len(rest) == 0 || !(isTokenOctet(rest[0]) || rest[0] == '/')
+//@ assigns \nothing
+//@ loop 0 invariant 0 <= i && i <= len(s)
+//@ loop 0 invariant forall k int :: 0 <= k && k < i ==> (isTokenOctet(s[k]) || s[k] == '/')
+
+//@ func expectQuality
+//@ ensures [Q1] q == -1 || q >= 0
+//@ ensures q == -1 ==> rest == ""
+//@ ensures len(rest) <= len(s)
+//@ ensures q != -1 ==> rest == s[len(s)-len(rest):]
+//@ assigns \nothing
+//@ loop 0 invariant 0 <= i && i <= len(s)
+//@ loop 0 invariant 0 <= n && n < d && 1 <= d && d <= 10 * maxQualityDenominator
